@@ -27,6 +27,7 @@ import (
 	"github.com/corestario/kyber/pairing/bls12381"
 	"github.com/corestario/kyber/share"
 	kbls "github.com/corestario/kyber/sign/bls"
+	"github.com/corestario/kyber/sign/tbls"
 	prysmBLS "github.com/prysmaticlabs/prysm/v3/crypto/bls"
 
 	"github.com/lidofinance/dc4bc/airgapped"
@@ -40,6 +41,7 @@ import (
 type algStats struct {
 	Ops, Ceremonies, Batches, SignaturesChecked, SharesChecked, SubsetsChecked int
 	C07Schedules, C07Races, C11Scenarios                                       int
+	CraftedBatches, PartialsChecked                                            int
 	C07Exhaustive                                                              string
 	Configs                                                                    []string
 	OutcomeHist                                                                map[string]int
@@ -59,6 +61,8 @@ type algRun struct {
 	obs  *bufio.Writer
 	rng  *rand.Rand
 	suit pairing.Suite
+	// craft: the tasks of the next proposal, posted as they are (signBatch takes them instead of data / range)
+	craft []requests.SigningTask
 }
 
 func (a *algRun) emit(op, ob string) {
@@ -219,7 +223,20 @@ type proposedMsg struct {
 func (a *algRun) signBatch(c *cluster, round string, proposer int, data map[string][]byte, rng [2]int, signers, late []int, pollEachStep bool) (string, []proposedMsg, []string) {
 	var errs []string
 	var want []proposedMsg
-	if data != nil {
+	crafted := ""
+	if a.craft != nil {
+		tasks := a.craft
+		a.craft = nil
+		id, err := c.proposeTasks(c.nodes[proposer], round, tasks)
+		if err != nil {
+			return "", nil, []string{"propose: " + err.Error()}
+		}
+		crafted = id
+		// what the proposal says is to be signed under each identifier: a later task with the same identifier replaces an earlier one
+		for _, w := range lastPerID(expandTasks(tasks)) {
+			want = append(want, proposedMsg{w.file, w.payload})
+		}
+	} else if data != nil {
 		if err := c.proposeData(c.nodes[proposer], round, data); err != nil {
 			return "", nil, []string{"propose: " + err.Error()}
 		}
@@ -247,14 +264,20 @@ func (a *algRun) signBatch(c *cluster, round string, proposer int, data map[stri
 	pollAll()
 	// batch id from the board
 	batch := ""
+	var proposal requests.SigningBatchProposalStartRequest
 	for _, m := range c.boardMessages() {
 		if m.Event == "event_signing_start" {
 			var r requests.SigningBatchProposalStartRequest
 			if json.Unmarshal(m.Data, &r) == nil {
 				batch = r.BatchID
+				proposal = r
 			}
 		}
 	}
+	if crafted != "" && batch != crafted {
+		errs = append(errs, "the crafted proposal is not the last one on the board")
+	}
+	defer a.partialsOverProposed(c, round, batch, proposal.SigningTasks)
 	answer := func(i int) {
 		n := c.nodes[i]
 		for _, op := range n.pendingOps() {
@@ -279,6 +302,91 @@ func (a *algRun) signBatch(c *cluster, round string, proposer int, data map[stri
 	}
 	pollAll()
 	return batch, want, errs
+}
+
+type expandedMsg struct {
+	id, file string
+	payload  []byte
+}
+
+// expandTasks: the proposal read as the property reads it: an explicit task is its payload, a range task is the signing
+// roots (computed here from the consensus spec, not by the code under test) of the validators at those list positions
+func expandTasks(tasks []requests.SigningTask) []expandedMsg {
+	var out []expandedMsg
+	for _, t := range tasks {
+		if t.Payload != nil {
+			out = append(out, expandedMsg{t.MessageID, t.File, t.Payload})
+			continue
+		}
+		for pos := t.RangeStart; pos < t.RangeEnd; pos++ {
+			if m, err := requests.ReconstructBakedMessage(pos); err == nil {
+				out = append(out, expandedMsg{m.MessageID, m.File, specSigningRoot(mustU64(m.MessageID))})
+			}
+		}
+	}
+	return out
+}
+
+func lastPerID(ms []expandedMsg) []expandedMsg {
+	last := map[string]int{}
+	for i, m := range ms {
+		last[m.id] = i
+	}
+	var out []expandedMsg
+	for i, m := range ms {
+		if last[m.id] == i {
+			out = append(out, m)
+		}
+	}
+	return out
+}
+
+// partialsOverProposed (C03): every partial signature a participant's machine put on the board for this batch is a valid
+// share signature over the payload the PROPOSAL gives for that identifier - the bytes the nodes check it against.
+func (a *algRun) partialsOverProposed(c *cluster, round, batch string, tasks []requests.SigningTask) {
+	if batch == "" || len(tasks) == 0 {
+		return
+	}
+	payloadOf := map[string][]byte{}
+	for _, m := range lastPerID(expandTasks(tasks)) {
+		payloadOf[m.id] = m.payload
+	}
+	d, err := c.nodes[0].fsmSvc.GetFSMDump(&dto.DkgIdDTO{DkgID: round})
+	if err != nil || d == nil || d.Payload == nil || d.Payload.DKGProposalPayload == nil {
+		return
+	}
+	kr, err := dkg.LoadPubPolyBLSKeyringFromBytes(bls12381.NewBLS12381Suite(nil), d.Payload.DKGProposalPayload.PubPolyBz)
+	if err != nil {
+		return
+	}
+	for _, m := range c.boardMessages() {
+		if m.Event != "event_signing_partial_sign_received" {
+			continue
+		}
+		var req requests.SigningProposalBatchPartialSignRequests
+		if json.Unmarshal(m.Data, &req) != nil || req.BatchID != batch {
+			continue
+		}
+		// a machine answers task by task; of two answers under one identifier the nodes keep the later one
+		lastOf := map[string]int{}
+		for i, ps := range req.PartialSigns {
+			lastOf[ps.MessageID] = i
+		}
+		for i, ps := range req.PartialSigns {
+			if lastOf[ps.MessageID] != i {
+				continue
+			}
+			a.st.PartialsChecked++
+			want, known := payloadOf[ps.MessageID]
+			if !known {
+				a.mon(fmt.Sprintf("C03 signed_eq_proposed (batch %.13s from %s): a partial signature for identifier %q, which the proposal does not contain", batch, m.SenderAddr, ps.MessageID))
+				continue
+			}
+			if err := tbls.Verify(a.suit, kr.PubPoly, want, ps.Sign); err != nil {
+				a.mon(fmt.Sprintf("C03 signed_eq_proposed (batch %.13s): the partial signature of %s for identifier %q is not a signature over the %d bytes the proposal gives for it (%v): the machine signed other bytes than the nodes check", batch, m.SenderAddr, ps.MessageID, len(want), err))
+			}
+		}
+	}
 }
 
 func mustU64(s string) uint64 {
@@ -454,6 +562,30 @@ func runAlgDiff(outDir string, seed int64, tier string) {
 						a.st.Notes = append(a.st.Notes, fmt.Sprintf("%s batch %d signers=%v late=%v: %s", tag, b, signers, late, truncate(e, 200)))
 					}
 					a.checkSignatures(c, round, batch, secret, gk, want, fmt.Sprintf("%s batch %d signers=%v late=%v", tag, b, signers, late))
+				}
+				// C03: a proposal only a participant writing to the board can make: one identifier used by two tasks with different
+				// payloads, a range between them, and an explicit task named like one of the range's validators
+				{
+					start := a.rng.Intn(18600)
+					p1, p2, p3 := make([]byte, 20), make([]byte, 33), make([]byte, 7)
+					a.rng.Read(p1)
+					a.rng.Read(p2)
+					a.rng.Read(p3)
+					clash := "x"
+					if m, err := requests.ReconstructBakedMessage(start); err == nil {
+						clash = m.MessageID
+					}
+					a.craft = []requests.SigningTask{{MessageID: "twice", File: "first.bin", Payload: p1}, {MessageID: "r", File: "r", RangeStart: start, RangeEnd: start + 2},
+						{MessageID: "twice", File: "second.bin", Payload: p2}, {MessageID: clash, File: "named like a validator.bin", Payload: p3}}
+					perm := a.rng.Perm(cf.n)
+					signers := perm[:cf.t+a.rng.Intn(cf.n-cf.t+1)]
+					batch, want, berrs := a.signBatch(c, round, a.rng.Intn(cf.n), nil, [2]int{}, signers, nil, a.rng.Intn(2) == 0)
+					a.st.Batches++
+					a.st.CraftedBatches++
+					for _, e := range berrs {
+						a.st.Notes = append(a.st.Notes, fmt.Sprintf("%s crafted batch signers=%v: %s", tag, signers, truncate(e, 200)))
+					}
+					a.checkSignatures(c, round, batch, secret, gk, want, fmt.Sprintf("%s crafted batch (repeated identifier, range, explicit task named like a validator) signers=%v", tag, signers))
 				}
 				// C07: racing proposals, then schedules with slow signers (all of them for n=3,t=2 in the thorough tier)
 				a.raceProposals(c, round, secret, gk, cf.t, tag)
